@@ -82,7 +82,7 @@ CLAIMED.update({
            "DESIGN.md section 5 C18", "The translator classifies regexps by use (MatchString vs ReplaceAll/FindString) and recognises the GetDefaultHandler/BaseHandler shapes; the hostile language in Spec/CssInert.v is my reading of the property text. ",
            "Coq proof by reflection (verified regexp emptiness procedure) on translator-regenerated CSS regexps and keyword lists + bounded-exhaustive hostile-fragment search over all default handlers"),
  "C04": _c("proof", "Theorems C04_strict_text_only / C04_ugc_tags / C04_ugc_tables / C04_strict_no_markup / C04_strict_idempotent / C04_ugc_output_tokens / C04_ugc_pass_through over the model's build of the builder scripts regenerated from policies.go and helpers.go: StrictPolicy emits only escaped text; every tag UGCPolicy emits is in the documented vocabulary and not a forbidden element; "
-           "the tables (attribute names per element, global attributes, schemes exactly mailto/http/https, nofollow, no styles/data attributes/comments/rewriter) equal the documented ones, for every token list. On the bytes of the output, for every input: StrictPolicy's output has no angle bracket, reads back as text only and is a fixpoint; every tag read back from UGCPolicy's output is documented and not forbidden, every attribute forced or documented and no event-handler/style attribute, URL attribute values are u.String() of a parse with empty, mailto, http or https scheme; canonical documents in the vocabulary pass through byte for byte. Partial: the DOM clause is exercised by the oracle (ParseFragment in ten containers).",
+           "the tables (attribute names per element, global attributes, schemes exactly mailto/http/https, nofollow, no styles/data attributes/comments/rewriter) equal the documented ones, for every token list. On the bytes of the output, for every input: StrictPolicy's output has no angle bracket, reads back as text only and is a fixpoint; every tag read back from UGCPolicy's output is documented and not forbidden, every attribute forced or documented and no event-handler/style attribute, URL attribute values are u.String() of a parse with empty, mailto, http or https scheme; canonical documents in the vocabulary pass through byte for byte; C04_ugc_documented_values: 515 documented (element, attribute, value) samples are accepted by the regenerated rules (reflection with the verified matcher). Partial: the DOM clause is exercised by the oracle (ParseFragment in ten containers).",
            "DESIGN.md section 4 C04", TIE_NOTE + "The UGC vocabulary in Spec/UGCSpec.v is my reading of policies.go's comments. ",
            "Coq proof over translator-regenerated builder scripts (instance facts by computation) + policy-table correspondence of the shipped constructors + re-parse oracle"),
 })
